@@ -25,6 +25,11 @@ def main():
         sys.exit(replay.run(a.replay))
     if a.only:
         os.environ["VERIF_ONLY"] = a.only        # a filtered (development) run must not overwrite the evidence of a full run
+    from . import sym
+    err = sym.selfcheck_demux()
+    if err:
+        print("HARNESS ERROR: %s" % err)
+        sys.exit(2)
     seed = int(os.environ.get("VERIF_SEED", "0"))
     mod = importlib.import_module("harness.%s" % a.prop.lower())
     t0 = time.time()
